@@ -136,6 +136,7 @@ package goose
 //@   requires [usage is one of the three modes] usage == ExprValLocal || usage == ExprValReturned || usage == ExprValLoop
 //@   may_reject
 //@   ensures [no if-statement initializer] s.Init == nil
+//@   ensures [a statement is returned] result.Expr != nil
 //@ func (Ctx).assignStmt (ctx, s)
 //@   may_reject
 //@   ensures [only supported assignment operators] s.Tok == token.DEFINE || s.Tok == token.ASSIGN || s.Tok == token.ADD_ASSIGN || s.Tok == token.SUB_ASSIGN || s.Tok == token.OR_ASSIGN || s.Tok == token.AND_ASSIGN || s.Tok == token.XOR_ASSIGN
